@@ -17,6 +17,8 @@ where
 {
     set_budget(1);
     let Ok(mut bump) = Bump::<VA, S<M, UP>>::try_new() else { return };
+    // never run Drop for Bump on early-return paths (it walks the chunk list and calls the base allocator: pure cost)
+    let mut bump = core::mem::ManuallyDrop::new(bump);
     set_budget(0);
     let w1 = Win::of(bump.stats().current_chunk().unwrap());
     // two earlier blocks: `a0` stays live, `b` (the newest) may be deallocated inside the region
@@ -73,8 +75,7 @@ where
     }
     assert!(unsafe { w1.read(addr(a0)) } == va0, "C18: data of a live block allocated before the region changed");
     if dealloc_b {
-        core::mem::forget(bump);
-        kani::cover!(true, "END: harness ran to completion");
+            kani::cover!(true, "END: harness ran to completion");
         return;
     }
     if i1 != 0 {
@@ -96,7 +97,6 @@ where
         assert!(disjoint(after, l3.size(), addr(b), lb.size()), "C18: block allocated after overlaps the block allocated before");
     }
     assert!(unsafe { w1.read(addr(b) + ib) } == vb, "C18: data allocated before the region changed");
-    core::mem::forget(bump);
     kani::cover!(true, "END: harness ran to completion");
 }
 
@@ -127,6 +127,8 @@ fn settings_raise_alignment() {
     set_budget(1);
     if up {
         let Ok(mut bump) = Bump::<VA, S<1, true>>::try_new() else { return };
+    // never run Drop for Bump on early-return paths (it walks the chunk list and calls the base allocator: pure cost)
+    let mut bump = core::mem::ManuallyDrop::new(bump);
         set_budget(0);
         let l = any_layout(7, 0);
         let _ = bump.allocate(l);
@@ -137,20 +139,20 @@ fn settings_raise_alignment() {
             let _ = b8.allocate(any_layout(3, 0));
             assert!(addr(b8.stats().current_chunk().unwrap().bump_position()) % 8 == 0, "C18: position not aligned after an allocation with the raised alignment");
             kani::cover!(l.size() == 3, "raised from a misaligned position");
-            core::mem::forget(bump);
-        } else {
-            let b16: Bump<VA, S<16, true>> = bump.with_settings();
+                } else {
+            let b16: Bump<VA, S<16, true>> = core::mem::ManuallyDrop::into_inner(bump).with_settings();
             assert!(addr(b16.stats().current_chunk().unwrap().bump_position()) % 16 == 0, "C18: position not aligned after with_settings");
             core::mem::forget(b16);
         }
     } else {
         let Ok(mut bump) = Bump::<VA, S<2, false>>::try_new() else { return };
+    // never run Drop for Bump on early-return paths (it walks the chunk list and calls the base allocator: pure cost)
+    let mut bump = core::mem::ManuallyDrop::new(bump);
         set_budget(0);
         let _ = bump.allocate(any_layout(7, 0));
         let b8: &mut Bump<VA, S<8, false>> = bump.borrow_mut_with_settings();
         assert!(addr(b8.stats().current_chunk().unwrap().bump_position()) % 8 == 0, "C18: position not aligned after borrow_mut_with_settings (down)");
-        core::mem::forget(bump);
-    }
+        }
     kani::cover!(true, "END: harness ran to completion");
 }
 
@@ -173,12 +175,14 @@ fn panic_with_settings_unallocated() {
 fn panic_with_settings_claimed() {
     set_budget(1);
     let Ok(bump) = Bump::<VA, S<1, true>>::try_new() else { return };
+    // never run Drop for Bump on early-return paths (it walks the chunk list and calls the base allocator: pure cost)
+    let mut bump = core::mem::ManuallyDrop::new(bump);
     set_budget(0);
     let g = bump.claim();
     kani::cover!(true, "REACH: claimed arena");
     core::mem::forget(g);
     // CLAIMABLE = false is requested of a claimed arena
-    let b: Bump<VA, BumpSettings<1, true, true, false, true, true, 1>> = bump.with_settings();
+    let b: Bump<VA, BumpSettings<1, true, true, false, true, true, 1>> = core::mem::ManuallyDrop::into_inner(bump).with_settings();
     kani::cover!(true, "UNSAT: with_settings to non-claimable returned normally on a claimed arena");
     core::mem::forget(b);
 }
@@ -190,8 +194,10 @@ fn panic_with_settings_claimed() {
 fn nopanic_with_settings_ok() {
     set_budget(1);
     let Ok(bump) = Bump::<VA, S<1, true, false>>::try_new() else { return };
+    // never run Drop for Bump on early-return paths (it walks the chunk list and calls the base allocator: pure cost)
+    let mut bump = core::mem::ManuallyDrop::new(bump);
     set_budget(0);
-    let b: Bump<VA, S<4, true, true>> = bump.with_settings();
+    let b: Bump<VA, S<4, true, true>> = core::mem::ManuallyDrop::into_inner(bump).with_settings();
     assert!(addr(b.stats().current_chunk().unwrap().bump_position()) % 4 == 0, "C18: position not aligned after with_settings");
     let b2: Bump<VA, BumpSettings<4, true, true, false, true, true, 1>> = b.with_settings();
     core::mem::forget(b2);
